@@ -36,6 +36,9 @@ pub enum OStep {
     Offer { i: usize, path: Path },
     Check,
     Restart,
+    /// C13 only: the process dies (all writes so far / synced writes only survive); whatever the
+    /// reopened replica holds, its heads must be the heads of exactly those entries
+    Crash { l2: bool },
     Flush,
     /// age the open transaction at the n-th internal store call of the next operation
     Age { at: u32 },
@@ -111,6 +114,7 @@ impl Scenario for Offer {
                 match rng.below(20) {
                     0 => steps.push(OStep::Check),
                     1 if backend != Backend::Mem => steps.push(OStep::Restart),
+                    8 if backend == Backend::Disk && self.mode == Mode::Heads => steps.push(OStep::Crash { l2: rng.chance(1, 2) }),
                     2 => steps.push(OStep::Flush),
                     3 | 4 => steps.push(OStep::Age { at: rng.below(6) as u32 }),
                     5 if self.mode == Mode::Heads => steps.push(OStep::News { heads: gen_heads(rng, &g) }),
@@ -193,7 +197,7 @@ impl Scenario for Offer {
             out.push(p);
         }
         // simpler backend, simpler paths
-        if plan.backend != Backend::Mem && !plan.replicas.iter().flatten().any(|s| matches!(s, OStep::Restart)) {
+        if plan.backend != Backend::Mem && !plan.replicas.iter().flatten().any(|s| matches!(s, OStep::Restart | OStep::Crash { .. })) {
             let mut p = plan.clone();
             p.backend = Backend::Mem;
             out.push(p);
@@ -375,6 +379,27 @@ impl Offer {
                             sut.restart_clean()?;
                             cx.fault("clean_restart");
                             cx.ev("restart", format!("r{ri}"));
+                        }
+                    }
+                    OStep::Crash { l2 } => {
+                        if self.mode == Mode::Heads && sut.backend == Backend::Disk {
+                            sut.crash(if *l2 { crate::disk::Loss::L2 } else { crate::disk::Loss::L1 })?;
+                            cx.fault(if *l2 { "crash_L2" } else { "crash_L1" });
+                            // the crash may have taken un-committed entries away: the model follows
+                            // what the replica holds now (C06 judges *which* states are legitimate);
+                            // heads and news are then judged against exactly these entries
+                            // (documents created since the last commit are gone, too)
+                            ensure_doc(sut.store(), pd)?;
+                            let ds: Vec<u8> = neighbour_models.keys().copied().collect();
+                            for nd in ds {
+                                ensure_doc(sut.store(), nd)?;
+                                let d = dump(sut.store(), nd).map_err(harness)?;
+                                neighbour_models.insert(nd, d.doc);
+                            }
+                            let d = dump(sut.store(), pd).map_err(harness)?;
+                            cx.ev("crash", format!("r{ri} l2={l2} -> {}", d.doc.short()));
+                            model = d.doc.clone();
+                            self.check(sut.store(), &model, ri, cx, "after a crash")?;
                         }
                     }
                     OStep::Flush => {
